@@ -350,9 +350,11 @@ macro_rules! wire_types {
     ($($name:literal => $ty:ty),* $(,)?) => {
         pub fn wire_type_names() -> Vec<&'static str> { vec![$($name),*] }
         /// decode bytes as the named prost type, re-encode
+        fn norm_ty(ty: &str) -> String { ty.replace('_', "").to_lowercase() }
         fn wire_decode(ty: &str, bytes: &[u8]) -> Value {
-            match ty {
-                $($name => match <$ty>::decode(bytes) {
+            let ty = norm_ty(ty);
+            match ty.as_str() {
+                $(x if x == norm_ty($name) => match <$ty>::decode(bytes) {
                     Ok(m) => {
                         let b = m.encode_to_vec();
                         let again = <$ty>::decode(b.as_slice()).map(|m2| m2 == m).unwrap_or(false);
@@ -365,8 +367,9 @@ macro_rules! wire_types {
         }
         /// decode `a` and `b` as the named type and compare with prost's derived ==
         fn wire_equal(ty: &str, a: &[u8], b: &[u8]) -> Value {
-            match ty {
-                $($name => match (<$ty>::decode(a), <$ty>::decode(b)) {
+            let ty = norm_ty(ty);
+            match ty.as_str() {
+                $(x if x == norm_ty($name) => match (<$ty>::decode(a), <$ty>::decode(b)) {
                     (Ok(x), Ok(y)) => json!({"tag":"ok","equal": x == y}),
                     (Err(e), _) | (_, Err(e)) => json!({"tag":"err","msg":e.to_string()}),
                 },)*
@@ -424,7 +427,9 @@ pub fn apply_one(ev: &Value) -> Vec<Value> {
                 }
                 t => return json!({"tag":"unknown_type","type":t}),
             };
-            json!({"tag":"ok","bytes":b})
+            // decode what was written with the named prost type: equal to the original? re-encode
+            let chk = wire_decode(inp["wtype"].as_str().unwrap(), &b);
+            json!({"tag":"ok","bytes":b,"stable": chk["stable"], "again": chk["bytes"], "redecode": chk["tag"]})
         }),
         "typed_parts" => guarded(|| {
             use ommx::parse::Parse;
